@@ -164,6 +164,9 @@ static const KnownFinding* find_known(const std::string& oracle, const std::stri
 	return nullptr;
 }
 
+#ifdef VSIM_COV
+extern "C" void __gcov_dump(void);
+#endif
 static void finish_child(int status) {
 	if (g_shm) {
 		g_shm->fingerprint = simheap::fingerprint();
@@ -176,6 +179,9 @@ static void finish_child(int status) {
 		g_shm->status = status;
 	}
 	fflush(nullptr);
+#ifdef VSIM_COV
+	simheap::end_run(); __gcov_dump();      // coverage build only: children leave through _exit, which would lose their counters
+#endif
 	_exit(0);
 }
 
